@@ -104,6 +104,10 @@ enum Case {
     Bomb { size: u64, fill: u8, level: u32 },
     /// every truncation point and every single-bit flip of a small encoding
     Sweep { machine: Machine },
+    /// every truncation point of the *payload* below the compression layer
+    /// (cut, then re-compressed: a producer that died mid-write), for the current
+    /// format (machine) or the legacy v1 format (payload from the harness encoder)
+    PayloadSweep { machine: Option<Machine>, v1_payload_hex: String },
 }
 
 fn case_json(c: &Case) -> Value {
@@ -120,6 +124,8 @@ fn case_json(c: &Case) -> Value {
         Case::Sweep { machine } => {
             json!({"kind": "sweep", "machine": mach::enc(machine), "machine_readable": short(&mach::describe(machine))})
         }
+        Case::PayloadSweep { machine, v1_payload_hex } => json!({"kind": "payload_sweep",
+            "machine": machine.as_ref().map(mach::enc), "v1_payload_hex": v1_payload_hex}),
     }
 }
 fn short(s: &str) -> String {
@@ -150,6 +156,10 @@ fn case_from(v: &Value) -> Option<Case> {
         },
         "sweep" => Case::Sweep {
             machine: mach::dec(v["machine"].as_str()?)?,
+        },
+        "payload_sweep" => Case::PayloadSweep {
+            machine: v["machine"].as_str().and_then(mach::dec),
+            v1_payload_hex: v["v1_payload_hex"].as_str().unwrap_or("").to_string(),
         },
         _ => return None,
     })
@@ -431,7 +441,7 @@ fn v1_dist(buf: &mut Vec<u8>, ty: u16, p1: f64, p2: f64, start: f64, max: f64) {
     }
 }
 
-fn v1_encode(g: &mut Gen, valid: bool) -> String {
+fn v1_payload(g: &mut Gen, valid: bool) -> Vec<u8> {
     let n = 1 + g.usize(4);
     let mut p: Vec<u8> = vec![];
     p.extend(1u16.to_le_bytes());
@@ -479,9 +489,17 @@ fn v1_encode(g: &mut Gen, valid: bool) -> String {
             }
         }
     }
+    p
+}
+
+fn zlib(p: &[u8]) -> Vec<u8> {
     let mut e = ZlibEncoder::new(Vec::new(), Compression::default());
-    let _ = e.write_all(&p);
-    hex::encode(e.finish().unwrap_or_default())
+    let _ = e.write_all(p);
+    e.finish().unwrap_or_default()
+}
+
+fn v1_encode(g: &mut Gen, valid: bool) -> String {
+    hex::encode(zlib(&v1_payload(g, valid)))
 }
 
 // ---------------------------------------------------------------------------
@@ -697,6 +715,40 @@ impl C11 {
                     stats,
                 );
             }
+            Case::PayloadSweep { machine, v1_payload_hex } => {
+                stats.inc("payload_sweeps");
+                match machine {
+                    Some(m) => {
+                        use bincode::Options;
+                        let Ok(payload) = bincode::DefaultOptions::new().serialize(m) else {
+                            return v;
+                        };
+                        if payload.len() > 600 {
+                            return v;
+                        }
+                        for n in 0..=payload.len() {
+                            let inp = format!("02{}", BASE64_STANDARD.encode(zlib(&payload[..n])));
+                            let r = catch_sut(|| Machine::from_str(&inp));
+                            self.check_parsed(r, &format!("payload truncated to {n} of {} bytes and re-compressed", payload.len()), &mut v, stats);
+                            stats.fault("payload_truncate_every_offset");
+                        }
+                    }
+                    None => {
+                        let Ok(payload) = hex::decode(v1_payload_hex) else {
+                            return v;
+                        };
+                        for n in 0..=payload.len().min(2000) {
+                            let inp = hex::encode(zlib(&payload[..n]));
+                            let r = catch_sut(|| maybenot::parsing::parse_v1_machine(&inp));
+                            self.check_parsed(r, &format!("v1 payload truncated to {n} of {} bytes and re-compressed", payload.len()), &mut v, stats);
+                            stats.fault("v1_payload_truncate_every_offset");
+                            if v.len() > 3 {
+                                break;
+                            }
+                        }
+                    }
+                }
+            }
             Case::Sweep { machine } => {
                 let s = machine.serialize();
                 if s.len() > 400 {
@@ -793,7 +845,21 @@ impl C11 {
                 }
                 Case::ParseV1 { input, what }
             }
-            87..=96 => Case::Sweep {
+            87..=90 => {
+                if g.bool() {
+                    Case::PayloadSweep {
+                        machine: Some(small_machine(g)),
+                        v1_payload_hex: String::new(),
+                    }
+                } else {
+                    let valid = g.chance(0.7);
+                    Case::PayloadSweep {
+                        machine: None,
+                        v1_payload_hex: hex::encode(v1_payload(g, valid)),
+                    }
+                }
+            }
+            91..=96 => Case::Sweep {
                 machine: {
                     let mut mc = MachCfg::new(Family::Det);
                     mc.max_states = 2;
@@ -824,7 +890,7 @@ impl Engine for C11 {
             property: "C11",
             engine: "codec",
             level: "fault_enumeration",
-            rule: "case kinds: (30%) round trip of a generated valid machine - all action/distribution/counter variants, 1..60000 states, incompressible parameters so that the compressed payload crosses 32 KiB and 256 KiB and the encoding approaches 1 MiB, extreme numeric fields - with string identity, name identity and a behavioural comparison (original vs re-parsed machine driven by the same fault-injected closed-loop history, 'restart from strings'); (45%) one fault from the catalogue applied to a valid encoding: truncation, single/multi bit flip, byte substitution, chunk deletion/duplication, splice of two encodings, wrong version, non-ASCII/multi-byte characters also straddling the version prefix, corruption below the compression layer (payload mutated then re-compressed), random bytes, random base64; (12%) legacy v1 parser on harness-encoded well-formed / malformed-field / byte-faulted hex strings; (10%) exhaustive sweep of EVERY truncation point and EVERY single-bit flip of a small encoding (<= 400 chars); (3%) zlib bombs decompressing to 2 MiB..256 MiB (thorough: ..1 GiB) with peak memory measured by a counting global allocator. Oracle: Err or a machine that validates, never a panic/abort; peak live bytes <= 192 MiB + 4*len(input). Exhaustive only inside each sweep case; distinct = hash of the input string / machine; non-trivial = every case (each feeds the parser)".into(),
+            rule: "case kinds: (30%) round trip of a generated valid machine - all action/distribution/counter variants, 1..60000 states, incompressible parameters so that the compressed payload crosses 32 KiB and 256 KiB and the encoding approaches 1 MiB, extreme numeric fields - with string identity, name identity and a behavioural comparison (original vs re-parsed machine driven by the same fault-injected closed-loop history, 'restart from strings'); (45%) one fault from the catalogue applied to a valid encoding: truncation, single/multi bit flip, byte substitution, chunk deletion/duplication, splice of two encodings, wrong version, non-ASCII/multi-byte characters also straddling the version prefix, corruption below the compression layer (payload mutated then re-compressed), random bytes, random base64; (12%) legacy v1 parser on harness-encoded well-formed / malformed-field / byte-faulted hex strings; (6%) exhaustive sweep of EVERY truncation point and EVERY single-bit flip of a small encoding (<= 400 chars); (4%) exhaustive sweep of every truncation point of the PAYLOAD below the compression layer (cut, then re-compressed) for the current format and for the legacy v1 format; (3%) zlib bombs decompressing to 2 MiB..256 MiB (thorough: ..1 GiB) with peak memory measured by a counting global allocator. Oracle: Err or a machine that validates, never a panic/abort; peak live bytes <= 192 MiB + 4*len(input). Exhaustive only inside each sweep case; distinct = hash of the input string / machine; non-trivial = every case (each feeds the parser)".into(),
             assumptions: vec![
                 "honest scoping: the round trip is the no-fault baseline of the channel (input generation); truncation/bit-flip sweeps and payload corruption are the stored-artefact faults".into(),
                 "memory constant 192 MiB covers the 1 MiB buffer plus the largest in-memory machine a 1 MiB payload can describe (about 65500 states x 576 B, doubled for Vec growth)".into(),
